@@ -1,22 +1,7 @@
 """C16 — ability / resource patterns.  Tie: translator (Gen_Pattern + Tie_Pattern)
 and exhaustive correspondence over the alphabet {a,b,A,/,*,:}."""
 import glob, json, os, shutil
-from concurrent.futures import ThreadPoolExecutor
 import vlib
-
-
-def run_case_files(run, files, name="M"):
-    """coqc each case file (in parallel); returns dict file -> parsed mismatch list (None = coqc failed)."""
-    def one(f):
-        rc, out, dt = vlib.coqc(f, timeout=3000)
-        if rc != 0:
-            return f, None, out
-        return f, vlib.parse_nlist(vlib.parse_print(out, name)), out
-    res = {}
-    with ThreadPoolExecutor(max_workers=vlib.NCPU) as ex:
-        for f, r, out in ex.map(one, files):
-            res[f] = (r, out)
-    return res
 
 
 def check(run):
@@ -39,7 +24,7 @@ def check(run):
     stats = json.load(open(os.path.join(wd, "stats.json")))
     strs = stats["strings_list"]
     files = sorted(glob.glob(os.path.join(wd, "cases_C16_*.v")))
-    res = run_case_files(run, files)
+    res = vlib.run_case_files(files)
     corr_ok = True
     nbad = 0
     for f, (r, out) in sorted(res.items()):
